@@ -177,7 +177,11 @@ func c14TypeMap(ch *Choices) (map[string]reflect.Type, string) {
 			pool = append(pool, ZooTypeMap[k])
 		}
 		pool = append(pool, reflect.TypeOf(int32(0)), reflect.TypeOf(""), reflect.TypeOf([]string{}), reflect.TypeOf(map[string]string{}),
-			reflect.TypeOf(&Node{}), reflect.TypeOf(true))
+			reflect.TypeOf(&Node{}), reflect.TypeOf(true),
+			// registrations a caller can make by mistake: a nil type, an interface type, pointer to pointer,
+			// an array, a func
+			nil, reflect.TypeOf((*interface{})(nil)).Elem(), reflect.PtrTo(reflect.TypeOf(&K00{})), reflect.TypeOf([3]int32{}),
+			reflect.TypeOf(func() {}), reflect.TypeOf(map[interface{}]interface{}{}), reflect.TypeOf([]interface{}{}))
 		for _, k := range keys {
 			if mix64(hashString(k)^salt)%2 == 0 {
 				cp[k] = pool[mix64(hashString(k)+salt)%uint64(len(pool))]
